@@ -146,6 +146,17 @@ pub fn check_sim(prop: &str, tier: &str) -> i32 {
         }
         absorb(&mut report, &r, &props, &mut per_scenario);
     }
+    // other halves of the properties decided by two engines
+    if prop == "C04" {
+        let rule = std::mem::take(&mut report.rule);
+        crate::alloc::run_c04(tier, &mut report);
+        report.rule = format!("{rule} {}", std::mem::take(&mut report.rule));
+    }
+    if prop == "C05" {
+        let rule = std::mem::take(&mut report.rule);
+        crate::sched::run_c05(tier, &mut report);
+        report.rule = format!("{rule} {}", std::mem::take(&mut report.rule));
+    }
     // restart halves (journal engine) of the properties that quantify over crash points
     if matches!(prop, "C03" | "C06" | "C07" | "C09" | "C13") {
         let jbudget = if quick { Duration::from_secs(40) } else { Duration::from_secs(15 * 60) };
@@ -227,6 +238,8 @@ pub fn replay_file(path: &str) -> i32 {
         "auth" => crate::auth::replay(&v["replay"]),
         "journal" => crate::journal::replay(&v),
         "stream" => crate::stream::replay(&v),
+        "alloc" => crate::alloc::replay(&v),
+        "sched" => crate::sched::replay(&v),
         other => {
             eprintln!("replay for engine {other} is handled by its module");
             2
